@@ -318,7 +318,7 @@ Example C11_hyps_satisfiable :
 Proof.
   cbv zeta. split; [|split; [|split; [|split; [|split; [|split]]]]].
   - intros ph pe. rewrite (ls_consistent (Q2Qc (1 # 10)) _ _ _ ph pe), rk3_consistency.
-    f_equal. change (Q2Qc (1 # 10) * 1 * ph = Q2Qc (1 # 10) * ph)%Qc. ring.
+    f_equal; try (change (Q2Qc (1 # 10) * 1 * ph = Q2Qc (1 # 10) * ph)%Qc; ring).
   - apply Qc_is_canon. vm_compute. reflexivity.
   - intro H. apply (f_equal (fun q : Qc => Qeq_bool q 0)) in H. vm_compute in H. discriminate H.
   - intros k i l _ _ Hm. rewrite Hm. reflexivity.
